@@ -154,6 +154,40 @@ func (in *Interp) callBuiltin(g *Goroutine, name string, args []Value, c *ssa.Ca
 			}
 		}
 		return nil
+	case "SliceData":
+		s := args[0].(SliceV)
+		if s.obj == nil {
+			return PtrV{}
+		}
+		return PtrV{obj: s.obj, off: s.off}
+	case "String":
+		p := args[0].(PtrV)
+		n := in.concretizeInt(args[1].(*Term), 0, 1<<24, "unsafe.String len")
+		if n == 0 {
+			return concStr("")
+		}
+		ts := make([]*Term, n)
+		for i := range ts {
+			ts[i] = p.obj.cells[p.off+i].(*Term)
+		}
+		return strFromTerms(ts)
+	case "StringData":
+		s := args[0].(*StrV)
+		if s.Len() == 0 {
+			return PtrV{}
+		}
+		return PtrV{obj: mkBytes(in, s.Terms(tt)).obj}
+	case "Slice":
+		p := args[0].(PtrV)
+		n := in.concretizeInt(args[1].(*Term), 0, 1<<24, "unsafe.Slice len")
+		if p.obj == nil {
+			return SliceV{esz: 1}
+		}
+		esz := 1
+		if c != nil {
+			esz = in.cellsOf(c.Args[0].Type().Underlying().(*types.Pointer).Elem())
+		}
+		return SliceV{obj: p.obj, off: p.off, len: n, cap: n, esz: esz}
 	case "ssa:wrapnilchk":
 		if p, ok := args[0].(PtrV); ok && p.obj == nil {
 			in.goPanic("value method called using nil pointer")
